@@ -67,6 +67,14 @@ MCNext1 == {[kind |-> "both", dt |-> 3600, minwait |-> None]}
 MCDraws2 == {-500, 499}
 MCDraws3 == {-500, 0, 499}
 MCRestartNone == {}
+MCFailNone == {{}}
+\* every single failing storage operation among the first ones of each kind, and some pairs
+StOps == {[k |-> k, n |-> n] : k \in {"st.set", "st.rm"}, n \in 1..6} \cup {[k |-> "st.commit", n |-> n] : n \in 1..4}
+MCFailSingles == {{}} \cup {{f} : f \in StOps}
+MCFailPairs == MCFailSingles \cup {{[k |-> "st.set", n |-> 1], [k |-> "st.set", n |-> 2]}, {[k |-> "st.set", n |-> 2], [k |-> "st.commit", n |-> 1]},
+                                   {[k |-> "st.set", n |-> 3], [k |-> "st.set", n |-> 4]}, {[k |-> "st.rm", n |-> 1], [k |-> "st.commit", n |-> 2]}}
+MCUcSfail == {Resp(200, AuthOk, X5, [doc |-> Doc(<<Entry("a", "ok", "2.0.0.0", [id |-> "c9"]), Entry("b", "noupdate", "None", <<>>)>>, D77)]),
+              Resp(200, AuthOk, <<>>, [garbage |-> "trunc"])}
 \* restarts: same presets on the same OS; on the target version; with different embedder presets
 AppAPreset == [id |-> "a", ver |-> "1.2.3.4", cohort |-> [name |-> "preset-name"], uc |-> None]
 MCRestarts == {[os |-> "1.0", apps |-> MCApps1], [os |-> "2.0.0.0", apps |-> MCApps1], [os |-> "2.0.0.0", apps |-> <<AppAPreset>>]}
